@@ -280,7 +280,16 @@ def sweep_sources(tier):
              "struct S { int a : 3; unsigned : 0; struct { int b; }; };", "union U { int a; float b; } u;", "enum { A };", "int f(int, ...);",
              "void (*signal(int, void (*)(int)))(int);", "int x = sizeof(struct S { int a; });", "_Pragma(\"foo\")", "#pragma bar\nint x;",
              "int a[static 3], b[const *], c[restrict static 2];" if False else "void g(int a[static 3], int b[const *], int c[restrict 2]);",
-             "_Static_assert(sizeof(int) == 4, \"x\");", "int x = _Alignof(int);", "typedef struct S T2; T2 *p;"]
+             "_Static_assert(sizeof(int) == 4, \"x\");", "int x = _Alignof(int);", "typedef struct S T2; T2 *p;",
+             "struct S { int a; } a, b;", "typedef struct T { int x; } T1, *T2;", "enum E { A, B } e1, e2;", "union U { int a; } u1, *u2, u3[2];",
+             "void f(int a[const], char *argv[restrict], int b[static const 2], int c[volatile *], int d[const restrict]);",
+             "int f(int a[], int b[3][4], int (*c)[5]);", "struct S { struct S *next; } *head, nodes[3];"]
+    # array declarators: every dimension form x qualifier list, in parameter position
+    for quals in ("", "const", "const restrict", "static", "static const", "const static"):
+        for dim in ("", "n", "3", "*"):
+            if ("static" in quals and dim in ("", "*")) or (dim == "*" and "static" in quals):
+                continue
+            srcs.append("void g(int n, int a[%s]);" % (quals + (" " if quals and dim else "") + dim))
     return srcs
 
 
